@@ -7,7 +7,7 @@
 (* rest of the trace is still examined.  The trace is accepted iff no      *)
 (* MISMATCH line was printed and every line was consumed (postcondition).  *)
 (***************************************************************************)
-EXTENDS Facade, Json, IOUtils, TLC
+EXTENDS Literal, Json, IOUtils, TLC
 
 Rec == ndJsonDeserialize(IOEnv.TRACE)
 
@@ -25,6 +25,7 @@ Check(e) ==
          [] e.g = "float" -> CheckFloat(e)
          [] e.g = "codec" -> CheckCodec(e)
          [] e.g = "fac"   -> CheckFac(e)
+         [] e.g = "lit"   -> CheckLit(e)
          [] OTHER -> [unknown_group |-> FALSE]
 
 Fails(c) == LET cc == c IN {f \in DOMAIN cc : ~cc[f]}
